@@ -28,6 +28,9 @@ def exprs(prev, level):
     out += ["(" + a + ")" for a in ["1"] + list(prev)]
     small = ["1", "2", "7"] + list(prev)
     out += ["%s %s %s" % (a, op, b) for a in small for op in OPS for b in small]
+    # a parenthesised right operand: the grouping changes the value for every operator pair but + +, * *
+    tail = (list(prev)[-1:] or ["2"])[0]
+    out += ["7 %s (%s %s 2)" % (o1, tail, o2) for o1 in OPS for o2 in OPS] + ["7 * (7 / 2)", "7 / (2 / 7 + 1)", "(7 / 2) * 2", "7 / 2 * 2"]
     out += ["2 - -2", "7 + +1", "2 * -7", "-7 / -2", "1 - -(2)"] + ["%s %s -%s" % (p, op, p) for p in prev for op in ("-", "*")]
     if level >= 2:
         s2 = ["2"] + list(prev)[-1:] if prev else ["2", "7"]
